@@ -27,7 +27,7 @@ RULE = ('each run = directory chain of depth 1-7 under a virtual root, per-level
         'and 2-5 discovery calls (start depth, allow_compressed, allow_xdev); non-trivial = at least one '
         'Manifest exists on the way up; distinct = distinct seam event-log digest')
 PLAN = {'quick': {'n': 20000, 'budget_s': 90, 'block': 50},
-        'thorough': {'n': 150000, 'budget_s': 900, 'block': 250}}
+        'thorough': {'n': 1000000, 'budget_s': 2400, 'block': 250}}
 ASSUMPTIONS = ['when a plain and a compressed Manifest exist in the same directory either may be named (statement silent)',
                'no error faults: the statement says nothing about unreadable Manifests during discovery']
 
